@@ -38,7 +38,7 @@ inductive DropStep where
   deriving DecidableEq, Repr
 
 inductive OpenStep where
-  | existsCheck | initFile | openFile | dbOpen
+  | existsCheck | initFile | openFile | openOrCreate | dbOpen
   deriving DecidableEq, Repr
 
 inductive InitStep where
@@ -46,7 +46,7 @@ inductive InitStep where
   deriving DecidableEq, Repr
 
 inductive OpenInnerStep where
-  | flock | mmap | readMeta | loadFreelist
+  | flock | initIfEmpty | mmap | readMeta | loadFreelist
   deriving DecidableEq, Repr
 
 structure ApiFn where
@@ -100,9 +100,18 @@ def BeginRegistersAtomically (l : List BeginStep) : Bool :=
   betweenFirst l .lockReaders .readMeta .releaseOrRegister && before l .releaseOrRegister .unlockReaders &&
   before l .lockTx .cloneFreelist && before l .lockTx .readMeta
 
-/-- C13: the advisory lock is taken before the file is initialised or mapped -/
-def OpenLocksBeforeInit (init : List InitStep) (inner : List OpenInnerStep) : Bool :=
-  before init .flock .fallocate && before init .flock .writeInit && before inner .flock .mmap
+/-- C13: the advisory lock is taken before the file is initialised, and initialisation (of a still empty
+file) comes before the map; the path is opened with create-if-missing and never tested for existence first,
+and `init_file` neither opens nor locks anything itself -/
+def OpenLocksBeforeInit (outer : List OpenStep) (init : List InitStep) (inner : List OpenInnerStep) : Bool :=
+  outer == [.openOrCreate, .dbOpen] && !init.contains .createNew && !init.contains .flock &&
+  before init .fallocate .writeInit && before init .writeInit .sync &&
+  before inner .flock .initIfEmpty && before inner .initIfEmpty .mmap
+
+/-- the order of the pinned release: exists-check, then create + initialise, and only then the lock -/
+def pinnedOpenOuter : List OpenStep := [.existsCheck, .initFile, .openFile, .dbOpen]
+def pinnedInitSteps : List InitStep := [.createNew, .fallocate, .writeInit, .flush, .sync]
+def pinnedOpenInner : List OpenInnerStep := [.flock, .mmap, .readMeta, .loadFreelist]
 
 /-- C13(a): an *existing* file is locked before it is mapped or read -/
 def OpenLocksBeforeMap (inner : List OpenInnerStep) : Bool :=
